@@ -59,3 +59,55 @@ Theorem C08_ingest_setup_from_source :
   open_is_cancellable (ip_setup gen_Ingest) = true /\ read_is_cancellable (ip_setup gen_Ingest) = true.
 Proof. pose proof setup_from_source as H. tauto. Qed.
 Print Assumptions C08_ingest_setup_from_source.
+
+(* ================= main.go and the rest of the wiring, read from the source =================
+   Gen/DaemonMain.v is REGENERATED on every run (tools/go2v/wiringgen.go): the function of main.go that builds
+   the root context (signal.NotifyContext on context.Background() with which signals, stop deferred), hands it to
+   cmd.RunNamedPipe and returns its error; func main INTERPRETED statement by statement for a non-nil and for a nil
+   error of that function (log.Fatal* = status 1, os.Exit(n) = n, panic = 2, return / end of main = 0; anything else
+   does not type-check); `go` statements and <group>.Go calls of packages main and cmd; flag defaults. *)
+From AM Require Gen.DaemonMain Proofs.DaemonMainLemmas.
+
+(* The status [exited] of Model/Workers.v (used by C08_fail_stop) is the status the source yields: non-zero iff a
+   worker function returned an error.  The chain: eg.Wait()'s error is returned by RunNamedPipe (Gen/Blocking.v) and
+   `return nil` follows only otherwise; the runner returns RunNamedPipe's error unchanged; func main turns a non-nil
+   error into [exit_status_on_error] and nil into [exit_status_on_nil]. *)
+Theorem C08_exit_status_from_source :
+  (Gen.DaemonMain.exit_status_on_error <> 0 /\ Gen.DaemonMain.exit_status_on_nil = 0) /\
+  (Gen.DaemonMain.run_error_returned = true /\ Gen.Blocking.group_wait_error_returned = true /\
+   Gen.DaemonMain.run_returns_nil_at_end = true) /\
+  (forall s st, exited s = Some st ->
+     st = if any_failed (d_ws s) then Gen.DaemonMain.exit_status_on_error else Gen.DaemonMain.exit_status_on_nil) /\
+  (forall s st, exited s = Some st -> (st <> 0 <-> any_failed (d_ws s) = true)).
+Proof. exact Proofs.DaemonMainLemmas.exit_status_from_source. Qed.
+Print Assumptions C08_exit_status_from_source.
+
+(* SIGTERM (15) and SIGINT (2) cancel the root context, which is the context RunNamedPipe derives the group
+   context from (so a signal is the [d_cancel] of a daemon round) *)
+Theorem C08_signals_from_source :
+  Gen.DaemonMain.root_ctx_ctor = "signal.NotifyContext" /\ Gen.DaemonMain.root_ctx_parent = "context.Background()" /\
+  In 15 Gen.DaemonMain.root_signal_numbers /\ In 2 Gen.DaemonMain.root_signal_numbers /\
+  Gen.DaemonMain.root_stop_deferred = true /\ Gen.DaemonMain.root_ctx_passed_to_run = true /\
+  Gen.DaemonMain.run_args_plain = true /\ Gen.Blocking.group_ctx_derived_from_root = true.
+Proof. exact Proofs.DaemonMainLemmas.signals_from_source. Qed.
+Print Assumptions C08_signals_from_source.
+
+(* every goroutine started in packages main and cmd goes through the errgroup (no `go` statement); RunNamedPipe's
+   <group>.Go calls are exactly the three workers of [daemon]; the remaining ones are the optional workers *)
+Theorem C08_goroutines_managed_from_source : Proofs.DaemonMainLemmas.goroutines_managed_ok = true.
+Proof. exact Proofs.DaemonMainLemmas.goroutines_managed_from_source. Qed.
+Print Assumptions C08_goroutines_managed_from_source.
+
+(* ... and those need a flag whose default is "false": with default flags [daemon] is the whole errgroup *)
+Theorem C08_optional_workers_off_by_default : forall f n fl, In (f, n, fl) Gen.DaemonMain.optional_workers ->
+  fl <> [] /\ forall x d, In (x, d) fl -> d = "false".
+Proof. exact Proofs.DaemonMainLemmas.optional_workers_off_by_default. Qed.
+Print Assumptions C08_optional_workers_off_by_default.
+
+(* the three default paths (two pipes, events file) are pairwise different *)
+Theorem C08_default_paths_distinct :
+  Gen.DaemonMain.sshd_pipe_default <> Gen.DaemonMain.audit_pipe_default /\
+  Gen.DaemonMain.events_output_default <> Gen.DaemonMain.sshd_pipe_default /\
+  Gen.DaemonMain.events_output_default <> Gen.DaemonMain.audit_pipe_default.
+Proof. exact Proofs.DaemonMainLemmas.default_paths_distinct. Qed.
+Print Assumptions C08_default_paths_distinct.
